@@ -191,7 +191,9 @@ func (c *client) Execute(
 		StepID: stepData.ID,
 		Config: stepData.InputData,
 	}
-	cborReader := c.decMode.NewDecoder(c.rawAtpChannels)
+	// All reads go through the client's one decoder. A decoder reads ahead of the message it returns, so a
+	// decoder per Execute call would take bytes of later messages with it when its read loop ends.
+	cborReader := c.decoder
 	if c.atpVersion > 1 {
 		// Wrap it in a runtime message.
 		workStartMsg = RuntimeMessage{RunID: stepData.RunID, MessageID: MessageTypeWorkStart, MessageData: workStartMsg}
